@@ -25,7 +25,9 @@ THE ORACLE (written from these texts, not from the binary):
 
 The programs are real: links to the exec helper named `cmd-exit-N` / `cmd-signal-N` (harness/shim/exechelper.c takes its outcome
 from the name and records argv, stdin and descriptors), files that are there but cannot be executed, scripts, names resolved
-through PATH; fork / waitpid failures are injected by the shim at the call the clean run made for that command.
+through PATH; fork / waitpid failures are injected by the shim at the call the clean run made for that command.  Every run - condition
+shapes and action shapes alike - is also conformed call by call against Model.mainP (conditions are evaluated inside the run,
+Model.evalP).
 
 The unit-level half (`unit_stage`) runs the real evaluator in-process (harness/unit/h_expr.c) with injectable outcomes
 (`vstatus:...`: real fork/waitpid/status mapping of util.c, the child ends as the name says) on the same table of outcomes and
@@ -355,14 +357,13 @@ def run_shape(tools, W, shape):
             scen.reset()
             r = scen.run(fail=plan)
         probs = judge(shape, scen, r)
-        conform = 'skipped'
-        if not shape.is_cond:
-            # exec actions are in the world model: the run follows Model.mainP call by call (command conditions are not, DESIGN 9.4)
-            rq, _, nts = W.request(scen, shape.pats, r, stdin=shape.stdin_mode)
-            ans = W.verdict([rq])[0]
-            conform, detail = world.compare(scen, r, ans)
-            if conform != 'ok':
-                conform += ': ' + detail[:300]
+        # exec actions AND `command` conditions are in the world model (Model.evalP: a condition issues open("/dev/null"), fork, waitpid,
+        # close while the rules are evaluated): every run follows Model.mainP call by call
+        rq, _, nts = W.request(scen, shape.pats, r, stdin=shape.stdin_mode)
+        ans = W.verdict([rq])[0]
+        conform, detail = world.compare(scen, r, ans)
+        if conform != 'ok':
+            conform += ': ' + detail[:300]
         return {'shape': shape.name, 'program': shape.prog.tag, 'outcome': repr(shape.prog.outcome), 'problems': probs, 'conform': conform,
                 'tree': describe_tree(shape.spec().tree) if probs else None,
                 'status': r.status, 'stderr': r.err[-300:].decode('latin-1').replace(scen.root, R), 'plan': plan, 'config': shape.conf,
@@ -416,7 +417,7 @@ def population(rng, progs, n):
     return ws.Spec('command-population', conf, pats, tree=tree, env={'PATH': '%s/bin:/usr/bin:/bin' % R}), msgs, meta
 
 
-def run_population(tools, spec, msgs, meta):
+def run_population(tools, W, spec, msgs, meta):
     scen = spec.build(tools)
     try:
         r = scen.run()
@@ -444,7 +445,12 @@ def run_population(tools, spec, msgs, meta):
         got = where.get(90, [])
         if len(got) != 1 or not got[0][0].startswith('dst2/new/'):
             probs.append('the second maildir was not processed')
-        return {'kinds': sorted(m[0] for m in meta.values()), 'status': r.status, 'problems': probs, 'config': spec.conf,
+        # the whole maildir (command conditions and exec actions mixed) follows Model.mainP call by call
+        rq, _, nts = W.request(scen, spec.pats, r)
+        conform, detail = world.compare(scen, r, W.verdict([rq])[0])
+        if conform != 'ok':
+            conform += ': ' + detail[:300]
+        return {'kinds': sorted(m[0] for m in meta.values()), 'status': r.status, 'problems': probs, 'config': spec.conf, 'conform': conform,
                 'messages': {'src/%s/%s' % k: v.decode('latin-1') for k, v in msgs.items()} if probs else None,
                 'stderr': r.err[-400:].decode('latin-1').replace(scen.root, R)}
     finally:
@@ -460,7 +466,7 @@ def process_stage(rep, tools, W, rng):
     npop = 12 if rep.tier == 'quick' else 400
     pops = [population(rng, progs, rng.randrange(2, 9)) for _ in range(npop)]
     with cf.ThreadPoolExecutor(vlib.NCPU) as ex:
-        presults = list(ex.map(lambda p: run_population(tools, p[0], p[1], p[2]), pops))
+        presults = list(ex.map(lambda p: run_population(tools, W, p[0], p[1], p[2]), pops))
     corr_bad, nbad = [], 0
     for r in results:
         if r.get('infrastructure'):
@@ -482,8 +488,11 @@ def process_stage(rep, tools, W, rng):
             if npbad <= 4:
                 rep.finding('unlisted', {'stage': 'cmdstatus-population', 'population': r['kinds'], 'exit_status': r['status'], 'what': r['problems'][:6],
                                          'stderr': r['stderr'], 'config': r['config'], 'messages': r['messages']})
+    for r in presults:
+        if not r['problems'] and r['conform'] != 'ok':
+            corr_bad.append({'shape': 'population', 'population': r['kinds'], 'conform': r['conform'], 'config': r['config'], 'status': r['status']})
     if corr_bad and not rep.violations:
-        rep.violation({'obligation': 'correspondence: an exec scenario of the command status family does not follow Model.mainP',
+        rep.violation({'obligation': 'correspondence: a scenario of the command status family (command condition or exec action) does not follow Model.mainP',
                        'disagreements': len(corr_bad), 'examples': corr_bad[:6]}, False)
     verdicts = {}
     for r in results:
@@ -491,7 +500,8 @@ def process_stage(rep, tools, W, rng):
     return {
         'programs': [p.tag for p in progs], 'shapes': SHAPES, 'runs': len(results), 'failing_runs': nbad,
         'populations': len(presults), 'failing_populations': npbad, 'conformance_mismatches': len(corr_bad),
-        'conformance_runs': sum(1 for r in results if r['conform'] == 'ok'),
+        'conformance_runs': sum(1 for r in results if r['conform'] == 'ok') + sum(1 for r in presults if r['conform'] == 'ok'),
+        'conformance_runs_condition_shapes': sum(1 for r in results if r['conform'] == 'ok' and r['shape'].startswith('cond')),
         'exit_status_by_program_and_shape': verdicts,
         'current_behaviour_signals': SIGNAL_NOTE,
         'rule': 'every program of the family (exit 0/1/2/126/127/128/129/200/255, SIGTERM/SIGKILL/SIGSEGV, missing, mode 0644, a directory, bad '
@@ -499,8 +509,8 @@ def process_stage(rep, tools, W, rng):
                 'failing, waitpid failing) in every shape (command condition: plain / negated / under attachment / with `-`; exec action: plain / '
                 'stdin / stdin body / inside attachment { } / after label / with `-`) on the real binary next to two other messages and a second '
                 'maildir, judged by the documented meaning (module docstring of tools/cmdstatus.py): exit status, where message 2 ends and its '
-                'content, the action after the exec, the neighbours, the spool, what the program got (argv, stdin, descriptors); exec '
-                'shapes also follow Model.mainP call by call; plus %d maildirs of 2-8 messages each addressed to a random program' % npop,
+                'content, the action after the exec, the neighbours, the spool, what the program got (argv, stdin, descriptors); every '
+                'shape (conditions and actions) also follows Model.mainP call by call; plus %d maildirs of 2-8 messages each addressed to a random program' % npop,
     }
 
 
